@@ -18,6 +18,21 @@ func ZZ_C02_deliveries() {
 	zzsym.FreezeClock()
 	zzsym.FreezeTimers()
 	e, m, ex, H, P, roots := zzFullNode(2)
+	zzC02Run(e, m, ex, H, P, roots, false)
+}
+
+// ZZ_C02_fresh_deliveries: the same for a node that has not applied any block
+// yet (first start through the real NewManager on an empty store, any initial
+// height: its store holds the locally built unsigned genesis block) and the
+// proposer's first two blocks.
+func ZZ_C02_fresh_deliveries() {
+	zzsym.FreezeClock()
+	zzsym.FreezeTimers()
+	e, m, ex, H, P, roots := zzFreshFullNode(2)
+	zzC02Run(e, m, ex, H, P, roots, true)
+}
+
+func zzC02Run(e *zzEnv, m *Manager, ex *zzDetExec, H uint64, P []*zzSlot, roots [][]byte, fresh bool) {
 	equalTxs := len(P[0].data.Txs) > 0 && len(P[1].data.Txs) > 0 && bytes.Equal(P[0].data.Txs[0], P[1].data.Txs[0])
 	zzsym.Region("two-blocks-with-equal-tx-lists", equalTxs)
 	gotH, gotD := []bool{false, false}, []bool{false, false}
@@ -25,8 +40,13 @@ func ZZ_C02_deliveries() {
 	// height the node's persisted scan position)
 	scan0 := uint64(3)
 	hAt, dAt := []uint64{5, 6}, []uint64{9, 8}
+	if fresh {
+		scan0 = 0 // nothing recorded yet: the scan starts at the configured DA start height (0)
+	}
 	if zzC02SymbolicDA {
-		scan0 = zzsym.U64("scan0")
+		if !fresh {
+			scan0 = zzsym.U64("scan0")
+		}
 		zzsym.Assume(scan0 < 1<<40)
 		hAt = []uint64{zzsym.U64("h1at"), zzsym.U64("h2at")}
 		dAt = []uint64{zzsym.U64("d1at"), zzsym.U64("d2at")}
@@ -34,8 +54,10 @@ func ZZ_C02_deliveries() {
 			zzsym.Assume(hAt[k] >= scan0 && hAt[k] < 1<<41 && dAt[k] >= scan0 && dAt[k] < 1<<41)
 		}
 	}
-	m.lastState.DAHeight = scan0
-	e.store.state.DAHeight = scan0
+	if !fresh {
+		m.lastState.DAHeight = scan0
+		e.store.state.DAHeight = scan0
+	}
 	nh := zzsym.Pick("nheaders", zzC02Len+1)
 	for i := 0; i < nh; i++ {
 		k := zzsym.Pick("hdr", 2)
